@@ -38,12 +38,20 @@ def gen_cases(tier, seed, ctx):
             addfile('bitflip', bytes(m))
         for cut in sorted(set(rnd.randrange(len(b)) for _ in range(5))):
             addfile('truncate', b[:cut])
+    # a dictionary chunk that is a valid frame with the right checksums, whose content carries the zstd dictionary magic but is
+    # not a dictionary (ZSTD_createDDict fails AFTER the buffer was handed to the compression context)
+    for k, extra in enumerate((4, 60, 300) if tier == 'quick' else (4, 8, 60, 300, 5000)):
+        zd = b'\x37\xa4\x30\xec' + rnd.randbytes(extra)
+        z = Z.make([FG.text(rnd, 300), FG.text(rnd, 200)], comp='zstd', full=1, chunk=1 + k % 3)
+        st = Z.zcompress(zd, 3, None)
+        z.chunks[0] = dict(digest=Z.H(z.chunk_hash_type, st), udigest=Z.H(z.chunk_hash_type, zd), comp_len=len(st), len=len(zd), stored=st, plain=zd)
+        addfile('bad-zstd-dict', z.finish().build())
     ctx['files'] = files
     scripts = [('META', '{p}'), ('READSEQ', '{p} 7,4096 {z}'), ('SCAN', '{p} vdfrc {z}'), ('CHUNKSEQ', '{p} 0,1,0c,2,1c,0 {z}'),
                ('SCAN', '{p} rvc {z}'), ('READSEQ', '{p} 100000 {z}')]
     for kind, p, zt, b in files:
         # headers declaring huge sizes get every script in both tiers (loops bounded by declared sizes must still end)
-        huge = kind in ('resealed-sum-boundary', 'resealed-comp_len', 'resealed-len')
+        huge = kind in ('resealed-sum-boundary', 'resealed-comp_len', 'resealed-len', 'bad-zstd-dict')
         for op, args in (scripts if (tier == 'thorough' or huge) else rnd.sample(scripts, 3)):
             cases.append(E.Case('x%d' % len(cases), '%s %s' % (op, args.format(p=p, z=zt)), dict(kind=kind, variant='asan')))
     return cases
@@ -93,7 +101,7 @@ def run(tier, seed, replay=None):
     rule = ("library ops META / READSEQ / SCAN / CHUNKSEQ on the real sources built with -fsanitize=address,undefined, each in a forked "
             "child with a timeout, on ~60 valid files and their RE-SEALED field mutants (every length/count field at boundary values, "
             "optional-element sizes incl. wrapping ones, count mismatches, sizes pointing at/over the end), raw and re-sealed byte edits, "
-            "bit flips and truncations; plus the ASan-built tools zck_read_header, unzck (-c, --dict), zck_delta_size on the same files. "
+            "bit flips and truncations, dictionary chunks that carry the zstd dictionary magic without being one; plus the ASan-built tools zck_read_header, unzck (-c, --dict), zck_delta_size on the same files. "
             "A crash, sanitizer report or timeout is a violation; results must also equal the Lean model's")
     return E.standard_run(PROP, MODULES, gen_cases, tier, seed, replay, ASSUMPTIONS, rule, nontrivial=nontrivial, timeout_s=30,
                           post=post, variant='asan')
